@@ -15,8 +15,12 @@ triple as Coq terms and lets coqc decide by vm_compute
                    states where the inputs are the same and out->vals of the compute side is a live
                    double block, whenever evaluate returns, compute (same fuel) returns the same value
                    and every value evaluate stored is in that block -- or compute fails with
-                   EOutOfBounds, nothing else; for ALL inputs (the harness-level glue
-                   CERT_kinds_history_full is not yet a theorem -- see design.d/CERT_kinds.md)
+                   EOutOfBounds, nothing else; for ALL inputs
+
+With input_safe_cert on assemble and compute_store_cert on compute (both evaluated by props/_certs.py)
+the harness-level theorems follow: CERT_kinds_history (run_check fe ts = VOk -> run_history
+[assemble; compute] ts in {VOk, VFail EOutOfBounds}) and CERT_kinds_history_revalued (the hist3 shape
+assemble; compute; compute(re-valued); compute(re-valued)).
 
 A `false` (or a shard that does not evaluate) goes to chk.broken (kind `certificate`, problem and
 kernel named): a broken obligation, not by itself a violation; the calling check's history sweep
@@ -31,8 +35,8 @@ from props._certs import parse_false
 from vlib.core import BUILD
 
 THEOREM = {
-    "kinds_assemble": "CERT_kinds_assemble_sound/_runs: whenever evaluate returns, assemble returns (same fuel) with the same output structure, for all inputs",
-    "kinds_compute": "CERT_kinds_compute_sound/_values: whenever evaluate returns, compute (same fuel, started on a live value block, same inputs) returns with every value evaluate stored -- or fails with EOutOfBounds only -- for all inputs",
+    "kinds_assemble": "CERT_kinds_assemble_sound/_runs and CERT_kinds_history(_revalued): whenever evaluate returns, assemble returns (same fuel) with the same output structure, for all inputs",
+    "kinds_compute": "CERT_kinds_compute_sound/_values: whenever evaluate returns, compute (same fuel, started on a live value block, same inputs) returns with every value evaluate stored -- or fails with EOutOfBounds only -- for all inputs; CERT_kinds_history(_revalued): assemble;compute(;compute re-valued) == evaluate on the harness",
 }
 
 
